@@ -28,7 +28,7 @@ TOL = 1e-10
 def plan(tier):
     return {"shards": 16, "timeout": 900 if tier == "quick" else 4 * 3600,
             "required_monitors": ["normal-vector-basis", "letter-basis", "triple-basis", "top-side-oracle",
-                                  "vectorbasis-input", "extreme-class"]}
+                                  "vectorbasis-input", "extreme-class", "top-side-sequences"]}
 
 
 def cases(ctx):
@@ -57,6 +57,8 @@ def cases(ctx):
     nd = 200 if ctx.tier == "quick" else 10000
     for i in range(nd):
         out.append({"id": f"d{i}", "kind": "disc", "i": i})
+    for i in range(nd // 4):
+        out.append({"id": f"q{i}", "kind": "discseq", "i": i})
     return out
 
 
@@ -130,6 +132,8 @@ def run_case(case, ctx, res):
         return _normal(case, ctx, res, osy, get_direction)
     if kind == "basis":
         return _basis(case, ctx, res, osy, get_direction)
+    if kind == "discseq":
+        return _discseq(case, ctx, res, osy, get_direction)
     return _disc(case, ctx, res, osy, get_direction)
 
 
@@ -286,3 +290,67 @@ def _disc(case, ctx, res, osy, get_direction):
     else:
         if abs(float(np.dot(nvec, Lhat))) > 1e-8:
             res.violate("side-L-not-in-plane", f"{label}: n.L/|L| = {float(np.dot(nvec, Lhat))!r}")
+
+
+def _discseq(case, ctx, res, osy, get_direction):
+    """several 'top'/'side' requests on ONE dataset: two clumps spinning about different axes, looked at in turn
+    with the same window, and velocities changed in place between requests - each answer must follow the
+    angular momentum of the cells inside the *current* window"""
+    rng = ctx.rng("discseq", case["i"])
+    n = 150
+    axes = [rng.normal(size=3) for _ in range(2)]
+    axes = [a / np.linalg.norm(a) for a in axes]
+    centres = [np.array([-3.0, 0.0, 0.0]) + rng.normal(size=3) * 0.2, np.array([3.0, 0.5, 0.0]) + rng.normal(size=3) * 0.2]
+    pos = np.concatenate([c + rng.uniform(-0.8, 0.8, size=(n, 3)) for c in centres])
+    vel = np.concatenate([np.cross(a * 2.0, pos[k * n:(k + 1) * n] - c) for k, (a, c) in enumerate(zip(axes, centres))])
+    vel += 0.05 * rng.normal(size=vel.shape)
+    mass = 10.0 ** rng.uniform(-1, 1, size=2 * n)
+    dg = osy.Datagroup()
+    dg["position"] = osy.Vector(pos[:, 0].copy(), pos[:, 1].copy(), pos[:, 2].copy(), unit="au")
+    dg["velocity"] = osy.Vector(vel[:, 0].copy(), vel[:, 1].copy(), vel[:, 2].copy(), unit="km/s")
+    dg["mass"] = osy.Array(values=mass.copy(), unit="M_sun")
+    R = 1.0
+    kw = {"dx": 2 * R * osy.units("au"), "dy": 2 * R * osy.units("au")}
+    res.nontrivial = True
+    res.digest_src = {"discseq": case["i"]}
+    steps = []
+    for step in range(int(rng.integers(3, 7))):
+        k = int(rng.integers(0, 2))
+        which = "top" if rng.random() < 0.5 else "side"
+        if rng.random() < 0.3:
+            # spin everything up / reverse it in place: same objects, new numbers
+            f = float(rng.choice([-1.0, 2.0, 0.5]))
+            if f < 0:
+                # reverse only clump 1, so the two windows change differently
+                for c in "xyz":
+                    getattr(dg["velocity"], c).values[n:] *= -1.0
+                vel[n:] *= -1.0
+            steps.append(f"velocity-changed({f})")
+        o_np = centres[k]
+        r = pos - o_np
+        dist = np.linalg.norm(r, axis=1)
+        if np.any(np.abs(dist - R) < 1e-7):
+            continue
+        inside = dist < R
+        L = np.sum(mass[inside, None] * np.cross(r[inside], vel[inside]), axis=0)
+        if np.linalg.norm(L) < 1e-9:
+            continue
+        Lhat = L / np.linalg.norm(L)
+        steps.append(f"{which}@clump{k}")
+        res.count("top-side-sequences")
+        with quiet(), np.errstate(all="ignore"):
+            o = attempt(get_direction, which, data=dg, origin=osy.Vector(*o_np, unit="au"), **kw)
+        label = f"request {step} {which!r} at clump {k} after {steps[:-1]}"
+        if not o.ok or o.value is None:
+            res.violate("direction-rejected", f"{label}: {o.describe()}", tb=o.tb)
+            return
+        if not check_basis(res, label, o.value):
+            return
+        nvec = np.asarray(comps(o.value.n), float)
+        if which == "top" and np.max(np.abs(nvec - Lhat)) > 1e-8:
+            res.violate("top-not-along-L", f"{label}: n = {nvec.tolist()} but the cells in the current window have L/|L| = {Lhat.tolist()}")
+            return
+        if which == "side" and abs(float(np.dot(nvec, Lhat))) > 1e-8:
+            res.violate("side-L-not-in-plane", f"{label}: n.L/|L| = {float(np.dot(nvec, Lhat))!r} for the current window")
+            return
+    res.sample = {"requests": steps}
